@@ -13,7 +13,7 @@ import os
 
 from .common import *
 
-CAUSES = ["valid", "wrongtype", "wrongalign", "corrupt", "trunc", "empty", "missing", "bigalign"]
+CAUSES = ["valid", "wrongtype", "wrongalign", "corrupt", "trunc", "empty", "missing", "bigalign", "isdir"]
 
 
 def run_model(tag, loaders, flags, causes, lens, maxsteps):
@@ -68,6 +68,8 @@ def to_cases(beh, nommap):
             tys = ["lay"]
         elif b["cause"] == "bigalign":
             tys = ["big128"]
+        elif b["cause"] == "isdir":
+            tys = ["vec8"]
         elif b["ops"]:
             tys = ["doc", "canary"]
         else:
@@ -184,6 +186,17 @@ def check(pid, tier, seed, V):
         if nommap:
             build_harness("nommap")
         cases, meta = to_cases(beh, nommap)
+        if pid == "C08":
+            # files of tens of kilobytes made of many small items (every loader; the buffered reader of load_full
+            # refills several times, small reads straddle its buffer)
+            for lo in loaders:
+                if lo == "encase" or (nommap and lo in ("load_mmap", "mmap")):
+                    continue
+                b0 = next((b for b in beh if b["loader"] == lo and b["cause"] == "valid" and not b["ops"]), None)
+                if b0 is not None:
+                    for n in (700, 1000, 2003):
+                        cases.append({"loader": lo, "flags": 0, "cause": "valid", "ty": "strs", "n": n, "ops": [], "prior": "absent"})
+                        meta.append(b0)
         obs = replay(cases, tag + "_" + build, sub="memcase")
         for b, c, o in zip(meta, cases, obs):
             judge(pid, b, c, o, V)
